@@ -267,11 +267,44 @@ func (ex *Exec) lookup(st *State, x *ssa.Lookup) Value {
 }
 
 func (ex *Exec) rangeStart(st *State, x *ssa.Range) Value {
-	unsup("range over %s (map/string iteration) not supported yet", x.X.Type())
-	return nil
+	if _, ok := under(x.X.Type()).(*types.Map); !ok {
+		unsup("range over %s (string iteration) not supported", x.X.Type())
+	}
+	it := &rangeIter{mapRef: st.scalar(x.X), mapT: x.X.Type(), visited: constArray(arrSort(SInt, SBool), tFalse)}
+	if x.Referrers() != nil {
+		for _, r := range *x.Referrers() {
+			if n, ok := r.(*ssa.Next); ok {
+				it.nextIn = n
+			}
+		}
+	}
+	st.rangeIt[x] = it
+	return Sc{intLit(0)}
 }
 
+// rangeNext yields an arbitrary not-yet-visited key (nondeterministic iteration order), or ok=false when all keys of the
+// map have been visited.
 func (ex *Exec) rangeNext(st *State, x *ssa.Next) Value {
-	unsup("range iteration not supported yet")
-	return nil
+	rg, isRange := x.Iter.(*ssa.Range)
+	if !isRange || x.IsString {
+		unsup("next on a string iterator")
+	}
+	it := st.rangeIt[rg]
+	if it == nil {
+		unsup("map iterator state lost")
+	}
+	mt := under(it.mapT).(*types.Map)
+	ok := ex.ctx.Fresh("rng_ok", SBool)
+	k := ex.ctx.Fresh("rng_k", SInt)
+	st.typeAssume(k, mt.Key())
+	has := st.mapHas(it.mapT, it.mapRef, k)
+	st.assume(tImp(ok, tAnd(has, tNot(tSelect(it.visited, k, SBool)))))
+	q := Term{"k!rg", SInt}
+	st.assume(tImp(tNot(ok), Term{fmt.Sprintf("(forall ((k!rg Int)) %s)", tImp(st.mapHas(it.mapT, it.mapRef, q), tSelect(it.visited, q, SBool)).S), SBool}))
+	l := Loc{Kind: "M", Base: typeKeyString(it.mapT), Dims: []Term{it.mapRef, k}, Type: mt.Elem()}
+	v := st.load(l)
+	nv := ex.ctx.Fresh("rng_visited", arrSort(SInt, SBool))
+	st.assume(tEq(nv, tIte(ok, tStore(it.visited, k, tTrue), it.visited)))
+	it.visited = nv
+	return Tu{[]Value{Sc{ok}, Sc{k}, v}}
 }
